@@ -98,6 +98,27 @@ def switches_on(fn, type_suffix):
     return out
 
 
+def enum_if_chain(fn, type_suffix):
+    """(set of enumerator values compared with ==, first IfStmt) for a dispatch on an enum written with if statements; None if there is none"""
+    present = set()
+    first = None
+    for i in fn.walk():
+        if i.k != 'IfStmt':
+            continue
+        for c in i.child('cond').walk():
+            if c.k == 'BinaryOperator' and c.op == '==':
+                sides = []
+                for z in (c.child('lhs'), c.child('rhs')):
+                    while z is not None and z.k in ('ImplicitCastExpr', 'CStyleCastExpr') and z.child('sub') is not None:
+                        z = z.child('sub')
+                    sides.append(z)
+                en = [z for z in sides if z is not None and z.k == 'DeclRefExpr' and z.dk == 'enum' and (z.t or '').replace('gdstk::', '').endswith(type_suffix)]
+                if len(en) == 1:
+                    present.add(en[0].cv)
+                    first = first or i
+    return (present, first) if present else None
+
+
 def check_exhaustive(ctx, db, fn, enum_qn, rule='R-EXHAUST', frozen_default=None, min_switches=1):
     """Every switch over enum_qn in fn: without default all enumerators present; with default the
     explicit case set equals frozen_default[(fn.qn, ordinal)] (confirmed by reading)."""
@@ -105,6 +126,21 @@ def check_exhaustive(ctx, db, fn, enum_qn, rule='R-EXHAUST', frozen_default=None
     short = enum_qn.split('::')[-1]
     sws = switches_on(fn, short)
     if len(sws) < min_switches:
+        # the same dispatch written as an if chain: `if (x == E::A) .. else if (x == E::B) .. else ..` (or with early returns)
+        chain = enum_if_chain(fn, short)
+        if chain is not None:
+            present, first = chain
+            names = {v: k for k, v in vals.items()}
+            key = '%s/switch#0:%s' % (fn.qn, short)
+            want = None if frozen_default is None else frozen_default.get((fn.qn, 0))
+            got = sorted(names.get(v, str(v)) for v in present)
+            if want is None:
+                missing = sorted(names[v] for v in vals.values() if v not in present)
+                ctx.check(not missing, rule, key, first.loc(), 'if chain covers all %d enumerators of %s' % (len(vals), short), 'if chain over %s lacks enumerator(s) %s' % (short, missing))
+            else:
+                ctx.check(sorted(want) == got, rule, key, first.loc(), 'if chain: explicit cases equal the frozen set %s' % sorted(want),
+                          'if chain: explicit cases %s differ from the confirmed set %s' % (got, sorted(want)))
+            return 1
         raise AnalysisBroken('%s: expected >= %d switch over %s, found %d' % (fn.qn, min_switches, short, len(sws)))
     for i, sw in enumerate(sws):
         present = set()
